@@ -780,6 +780,12 @@ def alap_profile(rng, n):
         for t in sinks:
             if t.parent is None or rng.random() < 0.5:
                 t.end = start + timedelta(days=rng.randint(8, 22), hours=rng.choice([10, 13, 17]))
+        if rng.random() < 0.12:
+            # a dependency loop through an anchored task: nobody on the loop can be placed consistently
+            anch = [t for t in sinks if t.end is not None and t.deps]
+            if anch:
+                s = rng.choice(anch)
+                s.deps[0][0].deps.append((s, False, rng.choice([0, G])))
         out.append(("alap%04d" % i, p))
     return out
 
